@@ -1044,6 +1044,14 @@ class CSSSerializer:
                     continue
                 elif (text := getattr(val, 'cssText', None)) is not None:
                     # RGBColor or CSSValue if a CSSValueList
+                    if valuesOnly:
+                        # no comments inside a function either
+                        if type(val) is cssutils.css.value.CSSFunction:
+                            text = self.do_css_CSSFunction(val, valuesOnly=True)
+                        elif type(val) is cssutils.css.value.CSSCalc:
+                            text = self.do_css_CSSCalc(val, valuesOnly=True)
+                        elif isinstance(val, cssutils.css.value.ColorValue):
+                            text = self.do_css_ColorValue(val, valuesOnly=True)
                     out.append(text, type_)
                 else:
                     if val and val[0] == val[-1] and val[0] in '\'"':
